@@ -41,3 +41,20 @@ Proof. vm_compute. reflexivity. Qed.
 
 Lemma w2_not_linear : linear_fresh cfg2 init_mstate w2 = false.
 Proof. vm_compute. reflexivity. Qed.
+
+(** ---- the store's configuration resolution (mavl.go New) ---- *)
+
+(** whatever the operator wrote for the prefix switch, a store that prunes
+    builds prefixed trees; nothing else is changed by the resolution *)
+Lemma prune_implies_prefix : forall s,
+  tc_prune (effective_cfg s) = sc_prune s /\
+  tc_prune_height (effective_cfg s) = sc_prune_height s /\
+  (sc_prune s = true -> tc_prefix (effective_cfg s) = true) /\
+  (sc_prune s = false -> tc_prefix (effective_cfg s) = sc_prefix s).
+Proof.
+  intros [pf pr ph]. unfold effective_cfg. cbn. destruct pr; repeat split; intro Hp; try reflexivity; discriminate Hp.
+Qed.
+
+(** the shipped-style configuration (prune switched on, prefix left off) *)
+Example shipped_cfg_resolves : effective_cfg (mk_sub_cfg false true 10) = mk_tree_cfg true true 10.
+Proof. reflexivity. Qed.
